@@ -46,6 +46,16 @@ func DelicatePrograms(thorough bool) []string {
 				}
 				out = append(out, fmt.Sprintf(tpl, op, l))
 			}
+			// the delicate operand as the LEFTMOST LEAF of a tighter right operand (a grandchild of the operator: a rule that
+			// looks at the direct child only does not see it), and as the rightmost leaf of a tighter left operand
+			if strings.ContainsAny(l[:1], "-+!~^") || l == "a--" || l == "a++" {
+				for k, tpl := range []string{"x = a %s %s * c", "x = a %s %s / 2", "y = a %s %s %% 4", "a %s %s[0]", "a %s %s.x + 1", "a %s %s(1)", "a %s %s << 1 * c", "c * %[2]s %[1]s a", "x = a %s (%s * c)", "x = a %s %s * c %[1]s %[2]s"} {
+					if !thorough && (len(l)+len(op)+k)%2 != 0 {
+						continue
+					}
+					out = append(out, fmt.Sprintf(tpl, op, l))
+				}
+			}
 		}
 		for _, op := range PrefixOps {
 			for _, tpl := range []string{"%s%s", "%s(%s)", "%s %s", "a = %s%s", "b %s%s"} {
